@@ -402,6 +402,13 @@ def rule_false_implies_absent(ctx):
                         if k and k[0] == 'FIRST_GE' and k[1] in (enc, resolve_calls(u, enc)):
                             return t[1] == '!='
                 return None
+            # an empty container stores no point at all: data.empty() (or data.size() == 0) implies absence
+            if t[0] == 'call' and str(t[1]).endswith('::empty') and len(t) > 3 and _sc(t[3]) == ('field', 'data', ('this',)):
+                return True
+            if t[0] == 'op' and len(t) == 4 and t[1] == '==':
+                for x, y in ((_sc(t[2]), _sc(t[3])), (_sc(t[3]), _sc(t[2]))):
+                    if y == ('lit', 0) and x[0] == 'call' and str(x[1]).endswith('::size') and len(x) > 3 and _sc(x[3]) == ('field', 'data', ('this',)):
+                        return True
             pp = _point_pred(u, f, t, par)
             if pp is not None:
                 if Tc is None:
@@ -559,6 +566,67 @@ def rule_contains_kind(ctx):
                           f"{k[0] if k else 'unknown'}({fmt_term(k[1]) if k else '?'}) over [{fmt_term(k[2]) if k else '?'}, {fmt_term(k[3]) if k else '?'})",
                           st, arm='contains'))
     return obs
+
+
+def rule_contains_deref_guard(ctx):
+    """contains(): the lower-bound position may be data.end() (a code larger than every stored one); its element is read only
+    where the position was found different from end() - in the right operand of `pos != end() && ...` or under such a test.
+    An emptiness test of the container is not that guard."""
+    import endguard
+    from cfg import graph as _g
+    obs = []
+    for f in ctx.need(MD + '::contains'):
+        g = _g(f)
+        n = 0
+        for i in f.all_ids():
+            nd = f.n(i)
+            operand = None
+            if nd['c'] == 'UnaryOperator' and nd.get('op') == '*':
+                operand = nd['ch'][0]
+            elif nd['c'] == 'CXXOperatorCallExpr' and nd.get('op') in ('*', '->') and len(nd.get('args', [])) == 1:
+                operand = nd['args'][0]
+            if operand is None or not reachable_in(f, i):
+                continue
+            k = kinds.kind_of_term(f.term(operand, inline=True))
+            if not k or k[0] not in ('FIRST_GE', 'FIRST_GT'):
+                continue
+            n += 1
+            xt, xi = f.term(operand, inline=False), f.term(operand, inline=True)
+            facts = []
+            # operands evaluated before the dereference in its own condition
+            x = i
+            p_ = f.parent(x)
+            while p_:
+                pn = f.n(p_)
+                if pn['c'] == 'BinaryOperator' and pn.get('op') in ('&&', '||') and len(pn['ch']) == 2 and x == pn['ch'][1]:
+                    facts += endguard.implications(f, pn['ch'][0], pn['op'] == '&&')
+                if pn['c'] in ('CompoundStmt', 'IfStmt', 'ReturnStmt', 'InlinedReturn', 'DeclStmt'):
+                    break
+                x = p_
+                p_ = f.parent(x)
+            pos = f.block_of(i)
+            if pos:
+                for (b, lab) in g.transitive_control_deps(pos[0]):
+                    c = g.cond(b)
+                    if c and isinstance(lab, bool) and not (i in set(f.walk(c))):
+                        facts += endguard.implications(f, c, lab)
+            guarded = any((not is_end) and (y == xt or f_inline(f, y) == xi) for (y, is_end) in facts)
+            obs.append(Ob('END-GUARD', f, i, 'the element at the lower-bound position is read only where that position was found different from data.end()',
+                          f"`*{fmt_term(xt)[:50]}` " + ('after a test against end()' if guarded else 'without a preceding test against end(): for a code larger than every stored one the position is data.end()'),
+                          OK if guarded else VIOLATED, arm='contains-deref'))
+        if n == 0:
+            obs.append(Ob('END-GUARD', f, 0, 'the element at the lower-bound position is read only where that position was found different from data.end()',
+                          'no dereference of a search result in contains()', UNDECIDED, arm='contains-deref'))
+    return obs
+
+
+def f_inline(f, y):
+    """the term y with single-definition locals looked through"""
+    if isinstance(y, tuple):
+        if y and y[0] == 'local' and len(y) == 3 and f.single_def(y[2]):
+            return f.term(f.single_def(y[2]), inline=True)
+        return tuple(f_inline(f, z) for z in y)
+    return y
 
 
 # ------------------------------------------------------------------------------------------ C13
@@ -749,4 +817,4 @@ def rules_c13(ctx):
 
 
 def rules_c14(ctx):
-    return rule_true_implies_eq(ctx) + rule_false_implies_absent(ctx) + rule_contains_kind(ctx) + rule_data_exact(ctx) + rule_end_guard(ctx, [MD + '::contains'])
+    return rule_true_implies_eq(ctx) + rule_false_implies_absent(ctx) + rule_contains_kind(ctx) + rule_data_exact(ctx) + rule_contains_deref_guard(ctx) + rule_end_guard(ctx, [MD + '::contains'])
